@@ -73,9 +73,13 @@ CODES = {
     19: "the leaf / root handed to the contract is not the model's j-th bridge leaf / root after k deposits",
     20: "the bridge contract REJECTED a proof served by the node's append-only tree (or the tree served no 32-sibling proof)",
     21: "the bridge contract accepted a tampered proof",
+    23: "the leaf the node uses for a deposit (Bridge.Hash() of the Bridge its real log appender built) differs from the contract's leaf value "
+        "(getLeafValue on the event as emitted)",
+    22: "the Bridge built by the REAL log appender of the bridge syncer differs from Model/Abi.v decode_bridge_event of the log data "
+        "(or its block position from the log index)",
 }
 # codes that are a statement about the node (C08: a served proof verifies), not about the transcription
-PROPERTY_CODES = {20}
+PROPERTY_CODES = {20, 23}
 
 
 def cases_n(tier):
@@ -87,10 +91,13 @@ def cases_n(tier):
 # ---------------------------------------------------------------------------------------------
 
 def _bev(e):
+    # position, deposit count and the eight event fields are those of the Bridge the REAL appender (bridgesync.buildAppender) built
     ev = "(mkB %s %s %s %s %s %s %s %s %s 0%%N)" % (
-        cN(e["log_index"]), cN(e["dc"]), cN(e["lt"]), cN(e["onet"]), cNhex(e["oaddr"]), cN(e["dnet"]), cNhex(e["daddr"]),
+        cN(e.get("block_pos", e["log_index"])), cN(e["dc"]), cN(e["lt"]), cN(e["onet"]), cNhex(e["oaddr"]), cN(e["dnet"]), cNhex(e["daddr"]),
         cN(e["amount"]), cbytes(e["meta"]))
-    return "(mkBO %s %s %s %s)" % (ev, cNhex(e["leaf_contract"]), cNhex(e["meta_hash"]), cNhex(e["leaf_repo"]))
+    data = e.get("data", "")
+    words = "[" + "; ".join(cNhex(data[k:k + 64]) for k in range(0, len(data), 64)) + "]"
+    return "(mkBO %s %s %s %s %s %s)" % (ev, cNhex(e["leaf_contract"]), cNhex(e["meta_hash"]), cNhex(e["leaf_repo"]), words, cN(e["log_index"]))
 
 
 def _l1(e):
@@ -316,7 +323,7 @@ def run_evm_part(chk):
         i = prop_bad[0]
         path = vlib.write_replay(pid, chk.seed, "input", dict(
             cases=[], evm_cases=[outs[i]], harness="evm",
-            what="the deployed bridge contract's verifyMerkleProof rejected a proof served by the node's append-only tree",
+            what="real code against the deployed bridge contract: " + "; ".join(sorted({CODES.get(c, str(c)) for _, c in diag.get(i, []) if c in PROPERTY_CODES})),
             details=_describe(outs[i], [d for d in diag.get(i, []) if d[1] in PROPERTY_CODES])))
         chk.violations.append((path, ""))
         cov["proofs_rejected_by_contract_cases"] = len(prop_bad)
